@@ -18,7 +18,8 @@ TRACE = """SPECIFICATION TSpec
 CONSTANTS KeyMode = "raw"
   Evict = "any"
   OpenKF = @OPENKF@
-  TabDom <- TraceVariants
+  Text <- Render
+  Mng <- Meaning
 INVARIANTS Correct
 POSTCONDITION Post
 CHECK_DEADLOCK FALSE
@@ -57,16 +58,17 @@ def run(ctx):
     # every ordered pair of near-duplicates of each base query (sequence-exhaustive, capacity 2)
     for b in (1, 2, 3, 4):
         scripts += gen("pairs-b%d" % b, bases="{%d}" % b, maxh=3, emit="ACTION_CONSTRAINT EmitLeaf")
-    # every triple inside the family in which the legacy keys collide, all capacities (eviction in between)
-    for b in ((3,) if q else (1, 2, 3, 4)):
-        for cap in ((2,) if q else (1, 2, 3)):
-            scripts += gen("triples-b%d-c%d" % (b, cap), bases="{%d}" % b, edits="strings", caps="{%d}" % cap, maxh=4,
-                           emit="ACTION_CONSTRAINT EmitLeaf")
-    # transition cover of the design model over all bases together (cross-base eviction), capacities 1..3
-    scripts += gen("cover", edits="strings", caps="{1,2}" if q else "{1,2,3}", maxh=3 if q else 4, view="VIEW View",
+    # every triple inside the family in which the legacy keys collide (eviction in between)
+    if not q:
+        for b, caps in ((1, (2,)), (2, (2,)), (3, (1, 2, 3)), (4, (2,))):
+            for cap in caps:
+                scripts += gen("triples-b%d-c%d" % (b, cap), bases="{%d}" % b, edits="strings", caps="{%d}" % cap, maxh=4,
+                               emit="ACTION_CONSTRAINT EmitLeaf")
+    # transition cover of the design model (one script per transition of the cache-state graph), capacities 1 and 2
+    scripts += gen("cover", bases="{3}" if q else "{1,3}", edits="strings", caps="{1,2}", maxh=4, view="VIEW View",
                    emit="ACTION_CONSTRAINT Emit")
     # long random walks over every single-edit variant
-    scripts += gen("walks", caps="{1,2,3}", maxh=12, extra="SimEmit", simulate=(150 if q else 3000, 13))
+    scripts += gen("walks", caps="{1,2,3}", maxh=12, extra="SimEmit", simulate=(40 if q else 1500, 13))
     ctx.assume("queries are 4 base queries over a fixed 4-node graph and their near-duplicates: one spelling edit (keyword case, "
                "quote kind, blanks/tab/newline/case inside a string literal, identifier case, back-ticks) and/or one separator edit "
                "(blanks, tab, newline, CRLF, block comment, line comment with and without its newline) and leading blanks",
